@@ -10,9 +10,10 @@ Model of `inkayaku_pgn::reader::PgnRawParser<R: Read>` (pgn/src/reader.rs), quir
 * loops take fuel (structural recursion, no `partial`).  Fuel is `input.length + 1`; `Props/C17.lean` proves that
   any larger fuel gives the same answer (`fuel_adequate`), i.e. the fuel never runs out.
 
-Strings: Rust pushes `byte as char`, i.e. the `String` holds the code point U+00XX for the byte XX.  The model
-keeps the list of these code points (all < 256) as `List UInt8`; `latin1Utf8` gives the UTF-8 bytes of the Rust
-`String` (identical for ASCII input).  Error payloads (`position`, `expected`, `actual`) are dropped.
+Strings: Rust pushes `byte as char`, i.e. the `String` holds the code point U+00XX for the byte XX (so a byte
+≥ 0x80 becomes a two-byte UTF-8 sequence inside the `String`).  The model keeps the list of these code points
+(all < 256) as `List UInt8`; two Rust strings are equal iff these lists are equal, and the line protocol prints
+the code points as bytes.  Error payloads (`position`, `expected`, `actual`) are dropped.
 Core Lean only.
 -/
 namespace Inkayaku.Pgn
@@ -133,11 +134,12 @@ def run {σ : Type} [Source σ] {α : Type} : Prog α → σ → α × σ
     | (some b, s') => run (k (some b)) (if inc (some b) then Source.incr s' else s')
     | (none, s') => run (k none) s'
 
-/-- programs returning `Result<α, PgnRawParserError>`; `>>=` is the `?` operator -/
-def M (α : Type) : Type := Prog (Except Err α)
+/-- programs returning `Result<α, PgnRawParserError>` -/
+abbrev M (α : Type) : Type := Prog (Except Err α)
 
 def M.pure {α : Type} (a : α) : M α := Prog.ret (.ok a)
 def M.throw {α : Type} (e : Err) : M α := Prog.ret (.error e)
+/-- `let a = p?; f(a)` -/
 def M.bind {α β : Type} (p : M α) (f : α → M β) : M β :=
   Prog.bind p fun
     | .ok a => f a
@@ -145,9 +147,9 @@ def M.bind {α β : Type} (p : M α) (f : α → M β) : M β :=
 /-- run `p` without propagating its error (`let value = self.read_until(..);`) -/
 def M.attempt {α : Type} (p : M α) : M (Except Err α) := Prog.bind p fun r => Prog.ret (.ok r)
 
-instance : Monad M where
-  pure := M.pure
-  bind := M.bind
+/-- `p >>=ₑ fun a => q` is `let a = p?; q`;  `p >>ₑ q` is `p?; q` (both associate to the right) -/
+infixr:55 " >>=ₑ " => M.bind
+notation:55 p:56 " >>ₑ " q:55 => M.bind p (fun _ => q)
 
 /-! ## Byte level (`peek_byte`, `pop_byte`, `skip_byte`, `consume`) -/
 
@@ -166,58 +168,59 @@ def skipByte : M Unit :=
     | some _ => M.pure ()
     | none => M.throw .closed
 
-def consume (expected : UInt8) : M Unit := do
-  let actual ← popByte
-  if actual = expected then pure () else M.throw .consume
+def consume (expected : UInt8) : M Unit :=
+  popByte >>=ₑ fun actual =>
+  if actual = expected then M.pure () else M.throw .consume
 
 def NL : UInt8 := 10   -- b'\n'
 def SP : UInt8 := 32   -- b' '
 
-/-! ## Loops.  Every loop returns `Err(closed)` (or what it has) when the fuel is used up; this never happens. -/
+/-! ## Loops.  Every loop returns `Err(closed)` (or what it has) when the fuel is used up; this never happens
+(`C17.fuel_adequate`). -/
 
 /-- `while self.peek_byte()? == b'\n' { self.skip_byte()?; }` -/
 def skipBlankLines : Nat → M Unit
   | 0 => M.throw .closed
-  | n + 1 => do
-    let b ← peekByte
-    if b = NL then do skipByte; skipBlankLines n else pure ()
+  | n + 1 =>
+    peekByte >>=ₑ fun b =>
+    if b = NL then skipByte >>ₑ skipBlankLines n else M.pure ()
 
 /-- `while self.peek_byte()? == b'\n' || self.peek_byte()? == b' ' { self.skip_byte()?; }` (two peeks) -/
 def skipBlankLinesAndSpaces : Nat → M Unit
   | 0 => M.throw .closed
-  | n + 1 => do
-    let b ← peekByte
-    if b = NL then do skipByte; skipBlankLinesAndSpaces n
-    else do
-      let b2 ← peekByte
-      if b2 = SP then do skipByte; skipBlankLinesAndSpaces n else pure ()
+  | n + 1 =>
+    peekByte >>=ₑ fun b =>
+    if b = NL then skipByte >>ₑ skipBlankLinesAndSpaces n
+    else
+      peekByte >>=ₑ fun b2 =>
+      if b2 = SP then skipByte >>ₑ skipBlankLinesAndSpaces n else M.pure ()
 
 /-- `while self.peek_byte()? == b' ' { self.skip_byte()?; }` -/
 def skipSpaces : Nat → M Unit
   | 0 => M.throw .closed
-  | n + 1 => do
-    let b ← peekByte
-    if b = SP then do skipByte; skipSpaces n else pure ()
+  | n + 1 =>
+    peekByte >>=ₑ fun b =>
+    if b = SP then skipByte >>ₑ skipSpaces n else M.pure ()
 
 /-- `while self.pop_byte()? != b'\n' {}` -/
 def skipToNextLine : Nat → M Unit
   | 0 => M.throw .closed
-  | n + 1 => do
-    let b ← popByte
-    if b ≠ NL then skipToNextLine n else pure ()
+  | n + 1 =>
+    popByte >>=ₑ fun b =>
+    if b ≠ NL then skipToNextLine n else M.pure ()
 
 /-- the `while cur_byte != byte` loop of `read_until` -/
 def readUntilLoop (byte : UInt8) : Nat → List UInt8 → UInt8 → M (List UInt8)
   | 0, _, _ => M.throw .closed
   | n + 1, result, curByte =>
-    if curByte ≠ byte then do
-      skipByte
-      let next ← peekByte
+    if curByte ≠ byte then
+      skipByte >>ₑ
+      peekByte >>=ₑ fun next =>
       readUntilLoop byte n (result ++ [curByte]) next
-    else pure result
+    else M.pure result
 
-def readUntil (fuel : Nat) (byte : UInt8) : M (List UInt8) := do
-  let curByte ← peekByte
+def readUntil (fuel : Nat) (byte : UInt8) : M (List UInt8) :=
+  peekByte >>=ₑ fun curByte =>
   readUntilLoop byte fuel [] curByte
 
 /-- `read_token`: `while self.ensure_buffer() { byte = buf[cur]; if blank break; push; increment_byte }` -/
@@ -240,94 +243,87 @@ def readToken (fuel : Nat) : M (List UInt8) :=
 def readTagName (fuel : Nat) : M (List UInt8) := readUntil fuel SP
 
 /-- the closing quote is consumed before the error of `read_until` is propagated -/
-def readTagValue (fuel : Nat) : M (List UInt8) := do
-  consume 34
-  let value ← M.attempt (readUntil fuel 34)
-  consume 34
-  match value with
-  | .ok v => pure v
-  | .error e => M.throw e
+def readTagValue (fuel : Nat) : M (List UInt8) :=
+  consume 34 >>ₑ
+  M.attempt (readUntil fuel 34) >>=ₑ fun value =>
+  consume 34 >>ₑ
+  Prog.ret value
 
-def readTagPairLine (fuel : Nat) : M (List UInt8 × List UInt8) := do
-  consume 91
-  let name ← readTagName fuel
-  consume SP
-  let value ← readTagValue fuel
-  consume 93
-  consume NL
-  pure (name, value)
+def readTagPairLine (fuel : Nat) : M (List UInt8 × List UInt8) :=
+  consume 91 >>ₑ
+  readTagName fuel >>=ₑ fun name =>
+  consume SP >>ₑ
+  readTagValue fuel >>=ₑ fun value =>
+  consume 93 >>ₑ
+  consume NL >>ₑ
+  M.pure (name, value)
 
 /-- the `loop` of `read_tag_pairs`; `k` counts iterations -/
 def readTagPairsLoop (fuel : Nat) : Nat → List (List UInt8 × List UInt8) → M (List (List UInt8 × List UInt8))
   | 0, _ => M.throw .closed
-  | k + 1, result => do
-    let b ← peekByte
-    if b = 91 then do
-      let (key, v) ← readTagPairLine fuel
-      readTagPairsLoop fuel k (tagInsert key v result)
-    else if b = NL then pure result
+  | k + 1, result =>
+    peekByte >>=ₑ fun b =>
+    if b = 91 then
+      readTagPairLine fuel >>=ₑ fun kv =>
+      readTagPairsLoop fuel k (tagInsert kv.1 kv.2 result)
+    else if b = NL then M.pure result
     else M.throw .symbol
 
 def readTagPairs (fuel : Nat) : M (List (List UInt8 × List UInt8)) := readTagPairsLoop fuel fuel []
 
 /-! ## Moves -/
 
-def readBracedAnnotation (fuel : Nat) : M (List UInt8) := do
-  consume 123
-  let result ← M.attempt (readUntil fuel 125)
-  consume 125
-  match result with
-  | .ok v => pure v
-  | .error e => M.throw e
+def readBracedAnnotation (fuel : Nat) : M (List UInt8) :=
+  consume 123 >>ₑ
+  M.attempt (readUntil fuel 125) >>=ₑ fun result =>
+  consume 125 >>ₑ
+  Prog.ret result
 
-def readSemicolonAnnotation (fuel : Nat) : M (List UInt8) := do
-  consume 59
-  let result ← M.attempt (readUntil fuel NL)
-  consume NL
-  match result with
-  | .ok v => pure v
-  | .error e => M.throw e
+def readSemicolonAnnotation (fuel : Nat) : M (List UInt8) :=
+  consume 59 >>ₑ
+  M.attempt (readUntil fuel NL) >>=ₑ fun result =>
+  consume NL >>ₑ
+  Prog.ret result
 
 /-- `"*" | "1-0" | "0-1" | "1/2-1/2"` -/
 def isResultToken (t : List UInt8) : Bool :=
   t = [42] || t = [49, 45, 48] || t = [48, 45, 49] || t = [49, 47, 50, 45, 49, 47, 50]
 
-def readMove (fuel : Nat) : M (Option RawMove) := do
-  skipBlankLinesAndSpaces fuel
-  let token ← readToken fuel
-  if isResultToken token then pure none
-  else do
-    let mv ← (if token.contains 46 then do skipSpaces fuel; readToken fuel else pure token)
-    skipSpaces fuel
-    let byte ← peekByte
-    let annotation ← (
-      if byte = 123 then do let a ← readBracedAnnotation fuel; pure (some a)
-      else if byte = 59 then do let a ← readSemicolonAnnotation fuel; pure (some a)
-      else pure none)
-    pure (some ⟨mv, annotation⟩)
+def readMove (fuel : Nat) : M (Option RawMove) :=
+  skipBlankLinesAndSpaces fuel >>ₑ
+  readToken fuel >>=ₑ fun token =>
+  if isResultToken token then M.pure none
+  else
+    (if token.contains 46 then skipSpaces fuel >>ₑ readToken fuel else M.pure token) >>=ₑ fun mv =>
+    skipSpaces fuel >>ₑ
+    peekByte >>=ₑ fun byte =>
+    (if byte = 123 then readBracedAnnotation fuel >>=ₑ fun a => M.pure (some a)
+     else if byte = 59 then readSemicolonAnnotation fuel >>=ₑ fun a => M.pure (some a)
+     else M.pure none) >>=ₑ fun annotation =>
+    M.pure (some ⟨mv, annotation⟩)
 
 /-- `while let Some(mv) = self.read_move()? { result.push(mv); }` -/
 def readMovesLoop (fuel : Nat) : Nat → List RawMove → M (List RawMove)
   | 0, _ => M.throw .closed
-  | k + 1, result => do
-    let m ← readMove fuel
+  | k + 1, result =>
+    readMove fuel >>=ₑ fun m =>
     match m with
     | some mv => readMovesLoop fuel k (result ++ [mv])
-    | none => pure result
+    | none => M.pure result
 
-def readMoves (fuel : Nat) : M (List RawMove) := do
-  let result ← readMovesLoop fuel fuel []
-  let r ← M.attempt (skipToNextLine fuel)
+def readMoves (fuel : Nat) : M (List RawMove) :=
+  readMovesLoop fuel fuel [] >>=ₑ fun result =>
+  M.attempt (skipToNextLine fuel) >>=ₑ fun r =>
   match r with
-  | .ok () => pure result
-  | .error .closed => pure result
+  | .ok () => M.pure result
+  | .error .closed => M.pure result
   | .error e => M.throw e
 
-def readPgn (fuel : Nat) : M RawGame := do
-  let tagPairs ← readTagPairs fuel
-  skipBlankLines fuel
-  let moves ← readMoves fuel
-  pure ⟨tagPairs, moves⟩
+def readPgn (fuel : Nat) : M RawGame :=
+  readTagPairs fuel >>=ₑ fun tagPairs =>
+  skipBlankLines fuel >>ₑ
+  readMoves fuel >>=ₑ fun moves =>
+  M.pure ⟨tagPairs, moves⟩
 
 /-- `Iterator::next` -/
 def next (fuel : Nat) : Prog (Option (Except Err RawGame)) :=
@@ -357,11 +353,9 @@ def readAllBuffered (chunk : Nat) (sched : Nat → Nat) (input : List UInt8) : L
 
 /-! ## Line protocol: `pgn <chunk> <schedule> x:<hex>` -/
 
-/-- UTF-8 bytes of the Rust `String` built by `push(byte as char)` -/
-def latin1Utf8 (cs : List UInt8) : List UInt8 :=
-  cs.flatMap fun b => if b < 128 then [b] else [(192 : UInt8) ||| (b >>> 6), (128 : UInt8) ||| (b &&& 63)]
-
-def hexStr (cs : List UInt8) : String := hexEncodeBytes (latin1Utf8 cs)
+/-- hex of the code points of a Rust `String` built by `push(byte as char)`, i.e. of the raw bytes read
+(the harness maps every `char` back with `c as u32 as u8`) -/
+def hexStr (cs : List UInt8) : String := hexEncodeBytes cs
 
 def parseDec (s : String) : Option Nat :=
   let cs := s.toList
@@ -391,8 +385,8 @@ def renderErr : Err → String
 def renderItem : Item → String
   | .err e => renderErr e
   | .game g =>
-    let tags := (g.tags.map fun kv => (latin1Utf8 kv.1, latin1Utf8 kv.2)).mergeSort (fun a b => decide (a.1 ≤ b.1))
-    let ts := tags.map fun kv => " t:" ++ hexEncodeBytes kv.1 ++ "=" ++ hexEncodeBytes kv.2
+    let tags := g.tags.mergeSort (fun a b => decide (a.1 ≤ b.1))
+    let ts := tags.map fun kv => " t:" ++ hexStr kv.1 ++ "=" ++ hexStr kv.2
     let ms := g.moves.map fun m =>
       match m.annotation with
       | none => " m:" ++ hexStr m.mv
